@@ -78,6 +78,12 @@ def main(ctx):
             lists = sublists(al, 4)
             for i in range(0, len(lists), 3):
                 jobs.append({"kind": "ws_pair", "alphabet": al, "clists": lists[i:i + 3]})
+        if not thorough:
+            # quick: the batched variants at least against their unbatched siblings (lists of <= 2)
+            al = ["json", "json.batched", "cbor.batched"]
+            lists = sublists(al, 2)
+            for i in range(0, len(lists), 3):
+                jobs.append({"kind": "ws_pair", "alphabet": al, "clists": lists[i:i + 3]})
         for part in range(8):
             jobs.append({"kind": "ws_ref", "part": part, "parts": 8, "tier": tier})
         # ---- D. message sequences under segmentation; E. corruptions; F. real pairs
@@ -204,7 +210,16 @@ def job(a):
     import os
     import time
     t0 = time.process_time()
-    globals()["job_" + a["kind"]](a, acc)
+    try:
+        globals()["job_" + a["kind"]](a, acc)
+    except RuntimeError as e:
+        # the harness could not even attach a session over a configuration that must work (a valid
+        # handshake with a common serializer): that is the property's first clause, not a machinery
+        # problem
+        if str(e).startswith("harness: ") and "did not attach" in str(e):
+            acc.bad("C13|valid-negotiation-refused|%s|%s" % (a.get("tkind", "?"), acc.fw), str(e)[:400], a)
+        else:
+            raise
     if os.environ.get("VERIF_DEBUG"):
         acc.inc("cpu_ms|" + a["kind"], int((time.process_time() - t0) * 1000))
     return acc.result()
